@@ -318,8 +318,7 @@ def handle (line : String) : Except String (String × Bool) := do
       let B ← pnat
       let D ← listOf pcond
       let Ω := allWorlds n
-      let reps := (boxVectors (D.map fun _ => B)).filter (isCRepB Ω D)
-      let front := reps.filter fun η => reps.all fun η' => η' == η || !((List.zip η' η).all fun p => p.1 ≤ p.2)
+      let front := frontInCube Ω D B
       pure (";".intercalate (front.map fun η => ",".intercalate (η.map toString)), true)
     | "rmsup" =>
       let m ← pnat
